@@ -8,7 +8,12 @@ mkdir -p .build evidence replays lean/Mxj/Generated lean/Mxj/Audit
 if [ -f extract/main.go ]; then
   (cd extract && go build -o ../.build/extract . && ../.build/extract -repo "${VERIF_REPO:-/repo}" -out ../lean/Mxj/Generated/Facts.lean -json ../.build/facts.json)
 fi
-(cd lean && lake build)
+(cd lean && lake build mxjdriver)
+# pre-build every property's theorems (each check rebuilds its own incrementally)
+for f in lean/Mxj/Props/C*.lean; do
+  m=$(basename "$f" .lean)
+  (cd lean && lake build "Mxj.Props.$m") || echo "setup: WARNING: Mxj.Props.$m does not build"
+done
 cp "${VERIF_REPO:-/repo}/go.sum" harness/go.sum 2>/dev/null || true
 (cd harness && go build -tags verif -o ../.build/mxjverif .)
 echo setup-ok
